@@ -40,7 +40,14 @@ def check_state(run: ir.MgRun, ref: ir.RefRun, objs, consts, after, touched=None
         if a.size > 0:
             if o == h:
                 if t.base is not None:
-                    return Mismatch("base", f"after stmt {after}: h{h} owns its memory in NumPy but .base is not None")
+                    # A function composed of several ops (multi_matmul with a 1-D last operand) may hand back a view
+                    # of an intermediate tensor the caller never sees: that hidden tensor then *is* the owner of the
+                    # memory, and naming it as .base is what the property asks for.  Anything else is a violation.
+                    bb = t.base
+                    hidden_owner = (not any(bb is v for v in run.env.values()) and bb.base is None
+                                    and np.shares_memory(t.data, bb.data))
+                    if not hidden_owner:
+                        return Mismatch("base", f"after stmt {after}: h{h} owns its memory in NumPy but .base is not None")
             elif t is run.env.get(o):
                 # documented pass-through (e.g. mg.atleast_1d(x) is x): the handle aliases the owner
                 if t.base is not None:
